@@ -17,9 +17,12 @@ Fixpoint digest_of (t : dtable) (i c k : N) : N :=
   | (i', c', k', d) :: r => if (i =? i') && (c =? c') && (k =? k') then d else digest_of r i c k
   end.
 
-(** A case: the digest table, the initial Package spec, the steps with the stage outcomes the
-    scenario was built to produce, and what the implementation did in every pass. *)
-Definition case := (dtable * spec * list step * list obs)%type.
+(** A case: which List validateUnique uses in the implementation under test (decided by the driver
+    from a witness scenario; only [agree] uses it), the digest table, the initial Package spec, the
+    other (Cluster)Packages of the cluster, the steps with the stage outcomes the scenario was built
+    to produce, and what the implementation did in every pass.  The same for both flavours: a
+    ClusterPackage scenario has no peers in other namespaces. *)
+Definition case := (bool * dtable * spec * peers * list step * list obs)%type.
 
 (** The request log of the implementation does not tell the controller's pause propagation from
     the deployment reconciler's update: both are "update ObjectDeployment". *)
@@ -61,17 +64,19 @@ Definition obs_eqb (a b : obs) : bool :=
   && list_eqb cond_eqb (ob_conds a) (ob_conds b) && option_eqb od_eqb (ob_od a) (ob_od b)
   && (ob_pulls a =? ob_pulls b).
 
-Definition model_obs_gen (fixed : bool) (t : dtable) (sp : spec) (steps : list step) : list obs :=
-  map norm_obs (run (digest_of t) fixed steps (init_world sp) [] []).
-(** the code as it is *)
-Definition model_obs := model_obs_gen true.
+Definition model_obs_gen (fixed scoped : bool) (t : dtable) (sp : spec) (ps : peers) (steps : list step) : list obs :=
+  map norm_obs (run (digest_of t) fixed scoped steps (init_world sp ps) [] []).
+(** the code as it is: validateUnique lists every (Cluster)Package *)
+Definition model_obs := model_obs_gen true false.
+(** validateUnique lists the labelled (Cluster)Packages of the scope *)
+Definition model_obs_scoped := model_obs_gen true true.
 (** the code before cb58cda *)
-Definition model_obs_v0 := model_obs_gen false.
+Definition model_obs_v0 := model_obs_gen false false.
 
 (** Model and implementation made the same requests with the same outcomes, pulled and entered
     Deploy at the same points, and left the same Package status and ObjectDeployment, pass by pass. *)
 Definition agree (c : case) : bool :=
-  let '(t, sp, steps, obss) := c in list_eqb obs_eqb (model_obs t sp steps) obss.
+  let '(scoped, t, sp, ps, steps, obss) := c in list_eqb obs_eqb (model_obs_gen true scoped t sp ps steps) obss.
 
 (** ** The monitor: the property on the implementation's observations only *)
 
@@ -106,19 +111,21 @@ Record verdict := {
   m_unch : bool;   (* spec hash = unpackedHash: no pull, no Deploy, no deployment change *)
   m_tmpl : bool;   (* new spec, valid and admissible, error-free pass: template = fresh render of the spec *)
   m_hist : bool;   (* the stored template is empty or the render of a spec that was valid and admissible *)
+  m_sync : bool;   (* status.unpackedHash only ever moves to the hash of the current spec, and when it does
+                      for a valid and admissible package the stored template is the render of that spec *)
 }.
 
 Definition verdict_and (a b : verdict) : verdict :=
   {| m_pull := m_pull a && m_pull b; m_load := m_load a && m_load b; m_cons := m_cons a && m_cons b;
      m_cfg := m_cfg a && m_cfg b; m_valid := m_valid a && m_valid b; m_unch := m_unch a && m_unch b;
-     m_tmpl := m_tmpl a && m_tmpl b; m_hist := m_hist a && m_hist b |}.
+     m_tmpl := m_tmpl a && m_tmpl b; m_hist := m_hist a && m_hist b; m_sync := m_sync a && m_sync b |}.
 
 Definition verdict_true : verdict :=
   {| m_pull := true; m_load := true; m_cons := true; m_cfg := true; m_valid := true; m_unch := true;
-     m_tmpl := true; m_hist := true |}.
+     m_tmpl := true; m_hist := true; m_sync := true |}.
 
 Definition verdict_all (a : verdict) : bool :=
-  m_pull a && m_load a && m_cons a && m_cfg a && m_valid a && m_unch a && m_tmpl a && m_hist a.
+  m_pull a && m_load a && m_cons a && m_cfg a && m_valid a && m_unch a && m_tmpl a && m_hist a && m_sync a.
 
 Definition good_after (dg : N -> N -> N -> N) (v : view) (o : oracle) : list N :=
   v_good v ++ (if all_ok o then [spec_digest dg (v_spec v)] else []).
@@ -145,7 +152,10 @@ Definition mon_pass (dg : N -> N -> N -> N) (v : view) (o : oracle) (armed : boo
                      (none_of pull_or_deploy (ob_events b) && same);
      m_tmpl := implb (reached && clean && all_ok o)
                  (option_eqb tmpl_eqb (tmpl_of (ob_od b)) (Some (Some (spec_digest dg sp))));
-     m_hist := tmpl_okb (good_after dg v o) (ob_od b) |}.
+     m_hist := tmpl_okb (good_after dg v o) (ob_od b);
+     m_sync := implb (negb (option_eqb spec_eqb (ob_hash b) (v_hash v)))
+                 (hash_eqb (ob_hash b) sp &&
+                  implb (all_ok o) (option_eqb tmpl_eqb (tmpl_of (ob_od b)) (Some (Some (spec_digest dg sp))))) |}.
 
 Definition done_after (v : view) (o : oracle) (b : obs) : option spec :=
   if ob_err b then None                      (* an error pass may or may not have persisted its status *)
@@ -157,17 +167,22 @@ Definition view_after (dg : N -> N -> N -> N) (v : view) (o : oracle) (b : obs) 
   {| v_spec := v_spec v; v_hash := ob_hash b; v_od := ob_od b; v_good := good_after dg v o;
      v_done := done_after v o b |}.
 
-Fixpoint mon (dg : N -> N -> N -> N) (v : view) (armed : bool) (steps : list step) (obss : list obs) : verdict :=
+(** The oracle the property is judged by: stage outcomes of the scenario, uniqueness among the
+    labelled (Cluster)Packages of the scope ([sem = true], i.e. [seen true]).  [sem = false] judges
+    uniqueness the way the code as it is does; the driver uses it only to tell whether a verdict is
+    due to nothing but that difference. *)
+Fixpoint mon (dg : N -> N -> N -> N) (sem : bool) (ps : peers) (v : view) (armed : bool) (steps : list step) (obss : list obs) : verdict :=
   match steps with
   | [] => verdict_true
   | SEdit sp :: r =>
-      mon dg {| v_spec := sp; v_hash := v_hash v; v_od := v_od v; v_good := v_good v; v_done := v_done v |} armed r obss
-  | SFault _ _ :: r => mon dg v true r obss
-  | SDisturb _ :: r => mon dg v true r obss
+      mon dg sem ps {| v_spec := sp; v_hash := v_hash v; v_od := v_od v; v_good := v_good v; v_done := v_done v |} armed r obss
+  | SFault _ _ :: r => mon dg sem ps v true r obss
+  | SDisturb _ :: r => mon dg sem ps v true r obss
   | SPass o :: r =>
       match obss with
       | [] => verdict_true   (* a missing observation is a correspondence failure, not a property violation *)
-      | b :: bs => verdict_and (mon_pass dg v o armed b) (mon dg (view_after dg v o b) false r bs)
+      | b :: bs => verdict_and (mon_pass dg v (seen sem ps o) armed b)
+                               (mon dg sem ps (view_after dg v (seen sem ps o) b) false r bs)
       end
   end.
 
@@ -175,11 +190,16 @@ Definition init_view (sp : spec) : view :=
   {| v_spec := sp; v_hash := None; v_od := None; v_good := []; v_done := None |}.
 
 Definition monitor (c : case) : verdict :=
-  let '(t, sp, steps, obss) := c in mon (digest_of t) (init_view sp) false steps obss.
+  let '(_, t, sp, ps, steps, obss) := c in mon (digest_of t) true ps (init_view sp) false steps obss.
 
-Definition judge (c : case) : bool * (bool * bool * bool * bool * bool * bool * bool * bool) :=
+(** the verdict if uniqueness were judged over every (Cluster)Package *)
+Definition monitor_unscoped (c : case) : verdict :=
+  let '(_, t, sp, ps, steps, obss) := c in mon (digest_of t) false ps (init_view sp) false steps obss.
+
+Definition judge (c : case) : bool * (bool * bool * bool * bool * bool * bool * bool * bool * bool) * bool :=
   let m := monitor c in
-  (agree c, (m_pull m, m_load m, m_cons m, m_cfg m, m_valid m, m_unch m, m_tmpl m, m_hist m)).
+  (agree c, (m_pull m, m_load m, m_cons m, m_cfg m, m_valid m, m_unch m, m_tmpl m, m_hist m, m_sync m),
+   verdict_all (monitor_unscoped c)).
 
 (** ** Soundness of the monitor for the models *)
 
@@ -219,9 +239,16 @@ Section Sound.
     now rewrite andb_true_r.
   Qed.
 
+  (** one pass with the oracle as the controller sees it *)
+  Definition pass0 (o : oracle) (w : world) (f : list rstat) (d : list bool) : result :=
+    reconcile dg fixed o {| st_w := w; st_f := f; st_d := d; st_dirty := false; st_log := [] |}.
+
+  Lemma option_spec_eqb_refl (x : option spec) : option_eqb spec_eqb x x = true.
+  Proof. destruct x; cbn; [apply spec_eqb_refl|reflexivity]. Qed.
+
   Lemma mon_pass_sound o w f d v armed :
     covered o -> consistent v w -> od_okb (v_good v) w = true -> (armed = false -> f = [] /\ d = []) ->
-    let r := do_pass dg fixed o w f d in
+    let r := pass0 o w f d in
     verdict_all (mon_pass dg v o armed (norm_obs (obs_of r))) = true /\
     consistent (view_after dg v o (norm_obs (obs_of r))) (st_w (r_st r)) /\
     od_okb (good_after dg v o) (st_w (r_st r)) = true.
@@ -233,10 +260,11 @@ Section Sound.
     assert (Hdep := covered_deployable o Hcov).
     (* history clause and new invariant *)
     assert (Hhist : od_okb (good_after dg v o) (st_w (r_st r)) = true).
-    { apply od_okb_ok. unfold good_after. rewrite Hsp, <- Hdep. apply pass_od_ok. now apply od_okb_ok. }
+    { apply od_okb_ok. unfold good_after. rewrite Hsp, <- Hdep.
+      apply (reconcile_od_ok dg fixed (v_good v) o s). now apply od_okb_ok. }
     split; [|split; [|exact Hhist]].
     2:{ unfold consistent, view_after, norm_obs, obs_of. cbn. split; [|split; [reflexivity|split; [reflexivity|]]].
-        - rewrite Hsp. unfold r, do_pass.
+        - rewrite Hsp. unfold r, pass0.
           (* the spec is never written by a pass *)
           apply (reconcile_inv dg fixed o (fun w' => p_spec (w_pkg w) = p_spec (w_pkg w')) (w_pkg w)); auto.
           + intros b w' H. unfold eff_pause. now destruct (w_od w').
@@ -245,7 +273,7 @@ Section Sound.
           intros x. unfold done_after. cbn.
           destruct (r_err r) eqn:Ee; [discriminate|].
           pose proof (pass_hash_ok dg fixed o s Ee) as Hph. unfold stored_pkg, pass_gen in Hph. cbn in Hph.
-          unfold r, do_pass. fold s. rewrite Hph. rewrite Hsp.
+          unfold r, pass0. fold s. rewrite Hph. rewrite Hsp.
           destruct (s_paused (p_spec (w_pkg w))); [apply Hdone|].
           destruct (hash_eqb (v_done v) (p_spec (w_pkg w))) eqn:Ed.
           + intros Hx. specialize (Hdone x Hx). rewrite Hx in Ed. cbn in Ed. apply spec_eqb_eq in Ed. subst x.
@@ -259,9 +287,9 @@ Section Sound.
     assert (Hsame : all_ok o = false -> od_changed (v_od v) (ob_od (norm_obs (obs_of r))) = false).
     { intros Hno. rewrite <- Hdep in Hno. destruct (not_deployable_no_deploy dg fixed o s Hno) as (l & _ & _ & Ht).
       unfold od_changed, norm_obs, obs_of. cbn. rewrite Hod. fold s. unfold tmpl_of.
-      unfold od_tmpl, pass_gen in Ht. unfold r, do_pass. fold s. rewrite Ht. now rewrite option_tmpl_eqb_refl. }
+      unfold od_tmpl, pass_gen in Ht. unfold r, pass0. fold s. rewrite Ht. now rewrite option_tmpl_eqb_refl. }
     assert (Hall : forall b, b = false -> all_ok o = true -> b = true -> False) by (intros; congruence).
-    unfold verdict_all, mon_pass. cbn [m_pull m_load m_cons m_cfg m_valid m_unch m_tmpl m_hist].
+    unfold verdict_all, mon_pass. cbn [m_pull m_load m_cons m_cfg m_valid m_unch m_tmpl m_hist m_sync].
     rewrite !andb_true_iff. repeat split.
     - (* pull *)
       destruct (o_pull o) eqn:Ep; [reflexivity|]. cbn [negb implb].
@@ -274,7 +302,7 @@ Section Sound.
         now apply nofault_pull_failure; [apply Hnf| |]. }
       clear E3. rename E3' into E3.
       destruct (pull_failure_condition dg fixed o s Hreach Ep E3) as (_ & Hc & _ & Hrq).
-      cbn. unfold stored_pkg, pass_gen in Hc, Hrq. unfold r, do_pass. fold s. rewrite Hrq, andb_true_r.
+      cbn. unfold stored_pkg, pass_gen in Hc, Hrq. unfold r, pass0. fold s. rewrite Hrq, andb_true_r.
       now apply has_shows in Hc.
     - (* load *)
       destruct (o_load o) eqn:El; [reflexivity|]. cbn [negb implb].
@@ -287,21 +315,21 @@ Section Sound.
         now apply nofault_load_failure; [apply Hnf| | |]. }
       clear E3. rename E3' into E3.
       destruct (load_failure_condition dg fixed o s Hreach E4 El E3) as (_ & Hc & _).
-      cbn. unfold stored_pkg, pass_gen in Hc. unfold r, do_pass. fold s. now apply has_shows in Hc.
+      cbn. unfold stored_pkg, pass_gen in Hc. unfold r, pass0. fold s. now apply has_shows in Hc.
     - (* constraints *)
       destruct (unmet o) eqn:Eu; [|reflexivity]. cbn [implb].
       rewrite Hsame by (unfold all_ok; rewrite Eu; now rewrite andb_false_r). cbn [negb andb].
       destruct (negb (s_paused (v_spec v)) && negb (hash_eqb (v_hash v) (v_spec v)) && (negb (ob_err (norm_obs (obs_of r))) || negb armed && negb (cons_err o)) && o_pull o && o_load o) eqn:E; [|reflexivity].
       cbn [implb]. rewrite !andb_true_iff in E. destruct E as [[[[E1 E2] E3] E4] E5].
       assert (Hreach : reach (w_pkg w) = true) by (unfold reach; rewrite <- Hsp, <- Hh; now rewrite E1, E2).
-      destruct Hcov as [Hfx|Hfx]; [|congruence]. subst fixed.
+      destruct Hcov as [Hfx|Hfx]; [|congruence].
       assert (E3' : r_err (pass_gen dg true o s) = false).
-      { apply orb_true_iff in E3. destruct E3 as [E3|E3]; [now apply negb_true_iff in E3|].
+      { apply orb_true_iff in E3. destruct E3 as [E3|E3]; [apply negb_true_iff in E3; cbn in E3; now rewrite <- Hfx|].
         apply andb_true_iff in E3. destruct E3 as [Ea Ec]. apply negb_true_iff in Ea, Ec.
         now apply nofault_unmet; [apply Hnf| | | | |]. }
       clear E3. rename E3' into E3.
       destruct (constraints_failure_condition dg o s Hreach E4 E5 Eu E3) as (_ & Hc & _).
-      cbn. unfold stored_pkg, pass_gen in Hc. unfold r, do_pass. fold s. now apply has_shows in Hc.
+      cbn. unfold stored_pkg, pass_gen in Hc. unfold r, pass0. fold s. rewrite Hfx. now apply has_shows in Hc.
     - (* config *)
       destruct (config_ok o) eqn:Ec; [reflexivity|]. cbn [negb implb].
       rewrite Hsame; [reflexivity|]. unfold all_ok, stages_ok. rewrite Ec.
@@ -319,27 +347,40 @@ Section Sound.
         rewrite (Hdone x eq_refl). cbn. now rewrite <- Hsp. }
       destruct (unchanged_no_pull dg fixed o s Hh') as (l & Hl & Hb & Ht).
       apply andb_true_iff. split.
-      + unfold norm_obs, obs_of. cbn [ob_events]. rewrite none_of_norm. unfold new_events, pass_gen in Hl. cbn in Hl. unfold r, do_pass. fold s. rewrite Hl.
+      + unfold norm_obs, obs_of. cbn [ob_events]. rewrite none_of_norm. unfold new_events, pass_gen in Hl. cbn in Hl. unfold r, pass0. fold s. rewrite Hl.
         revert Hb. apply none_of_weaken. intros e He. unfold busy. unfold pull_or_deploy in He.
         apply orb_true_iff in He. destruct He as [He|He]; rewrite He; [now rewrite orb_true_r|now rewrite !orb_true_r].
       + unfold od_changed, norm_obs, obs_of. cbn. rewrite Hod. unfold tmpl_of.
-        unfold od_tmpl, pass_gen in Ht. cbn in Ht. unfold r, do_pass. fold s. rewrite Ht. now rewrite option_tmpl_eqb_refl.
+        unfold od_tmpl, pass_gen in Ht. cbn in Ht. unfold r, pass0. fold s. rewrite Ht. now rewrite option_tmpl_eqb_refl.
     - (* template *)
       destruct (negb (s_paused (v_spec v)) && negb (hash_eqb (v_hash v) (v_spec v)) && negb (ob_err (norm_obs (obs_of r))) && all_ok o) eqn:E; [|reflexivity].
       cbn [implb]. rewrite !andb_true_iff in E. destruct E as [[[E1 E2] E3] E4].
       assert (Hreach : reach (w_pkg w) = true) by (unfold reach; rewrite <- Hsp, <- Hh; now rewrite E1, E2).
       apply negb_true_iff in E3. cbn in E3. rewrite <- Hdep in E4.
       destruct (changed_template dg fixed o s Hreach E4 E3) as (Ht & _).
-      cbn. unfold od_tmpl, pass_gen in Ht. unfold tmpl_of, r, do_pass. fold s. rewrite Ht. cbn. rewrite Hsp.
+      cbn. unfold od_tmpl, pass_gen in Ht. unfold tmpl_of, r, pass0. fold s. rewrite Ht. cbn. rewrite Hsp.
       apply N.eqb_refl.
     - (* history *)
       unfold od_okb, od_tmpl in Hhist. unfold tmpl_okb, tmpl_of. cbn. exact Hhist.
+    - (* hash and template move together *)
+      pose proof (hash_moves dg fixed o s) as Hm. cbn zeta in Hm. unfold stored_pkg, pass_gen in Hm. cbn [st_w s] in Hm.
+      unfold norm_obs, obs_of. cbn [ob_hash ob_od]. fold s. unfold r, pass0. fold s.
+      destruct Hm as [Hm|(Hm & _ & Ht)].
+      + rewrite Hm, Hh. now rewrite option_spec_eqb_refl.
+      + rewrite Hm. destruct (negb (option_eqb spec_eqb (Some (p_spec (w_pkg w))) (v_hash v))); [|reflexivity].
+        cbn [implb hash_eqb]. rewrite Hsp, spec_eqb_refl. cbn [andb].
+        destruct (all_ok o) eqn:Ea; [|reflexivity]. cbn [implb].
+        unfold od_tmpl in Ht. unfold tmpl_of. rewrite (Ht Hdep). cbn. apply N.eqb_refl.
   Qed.
 
+  Variable scoped : bool.
+  Variable ps : peers.
+
+  (** passes on which the model at hand judges the package as the property does *)
   Fixpoint all_covered (steps : list step) : Prop :=
     match steps with
     | [] => True
-    | SPass o :: r => covered o /\ all_covered r
+    | SPass o :: r => (covered (seen true ps o) /\ seen scoped ps o = seen true ps o) /\ all_covered r
     | _ :: r => all_covered r
     end.
 
@@ -348,31 +389,77 @@ Section Sound.
     unfold verdict_all, verdict_and. cbn. rewrite !andb_true_iff. intuition.
   Qed.
 
-  Lemma mon_sound steps : forall w f d v armed,
-    all_covered steps -> consistent v w -> od_okb (v_good v) w = true -> (armed = false -> f = [] /\ d = []) ->
-    verdict_all (mon dg v armed steps (map norm_obs (run dg fixed steps w f d))) = true.
+  (** no pass touches the peers *)
+  Lemma pass0_peers o w f d : w_peers (st_w (r_st (pass0 o w f d))) = w_peers w.
   Proof.
-    induction steps as [|x steps IH]; intros w f d v armed Hcov Hcons Hgood Harm; cbn; [reflexivity|].
+    unfold pass0. symmetry.
+    apply (reconcile_inv dg fixed o (fun w' => w_peers w = w_peers w') (w_pkg w)); auto.
+    - intros b w' H. unfold eff_pause. now destruct (w_od w').
+    - intros _ w' H. unfold eff_update. now destruct (w_od w').
+  Qed.
+
+  Lemma mon_sound steps : forall w f d v armed,
+    all_covered steps -> w_peers w = ps -> consistent v w -> od_okb (v_good v) w = true ->
+    (armed = false -> f = [] /\ d = []) ->
+    verdict_all (mon dg true ps v armed steps (map norm_obs (run dg fixed scoped steps w f d))) = true.
+  Proof.
+    induction steps as [|x steps IH]; intros w f d v armed Hcov Hps Hcons Hgood Harm; cbn; [reflexivity|].
     destruct x as [sp|n k|n|o].
-    - apply IH; [exact Hcov| | |exact Harm].
+    - apply IH; [exact Hcov| | | |exact Harm].
+      + unfold edit. now destruct (spec_eqb sp (p_spec (w_pkg w))).
       + destruct Hcons as (Hsp & Hh & Hod & Hdone). unfold consistent, edit. cbn.
         destruct (spec_eqb sp (p_spec (w_pkg w))) eqn:E; cbn; [apply spec_eqb_eq in E; subst sp|]; repeat split; assumption.
       + cbn. unfold od_okb, od_tmpl, edit in *. now destruct (spec_eqb sp (p_spec (w_pkg w))).
     - apply IH; try assumption. discriminate.
     - apply IH; try assumption. discriminate.
-    - destruct Hcov as [Hc Hcov]. cbn.
-      destruct (mon_pass_sound o w f d v armed Hc Hcons Hgood Harm) as (H1 & H2 & H3).
-      apply verdict_all_and; [exact H1|]. apply IH; try assumption. now split.
+    - destruct Hcov as [[Hc Hal] Hcov]. cbn.
+      change (do_pass dg fixed scoped o w f d) with (pass0 (seen scoped (w_peers w) o) w f d).
+      rewrite Hps, Hal.
+      destruct (mon_pass_sound (seen true ps o) w f d v armed Hc Hcons Hgood Harm) as (H1 & H2 & H3).
+      apply verdict_all_and; [exact H1|]. apply IH; try assumption; [now rewrite pass0_peers|now split].
   Qed.
 End Sound.
 
-(** The model of the code as it is satisfies the monitor on every history: spec edits, API
-    faults, third-party writes, passes with arbitrary stage outcomes. *)
-Theorem monitor_sound t sp steps :
-  verdict_all (monitor (t, sp, steps, model_obs t sp steps)) = true.
+(** With the List restricted to the labelled (Cluster)Packages of the scope the model satisfies the
+    monitor on every history: spec edits, API faults, third-party writes, passes with arbitrary stage
+    outcomes, any peers. *)
+Theorem monitor_sound_scoped sc t sp ps steps :
+  verdict_all (monitor (sc, t, sp, ps, steps, model_obs_scoped t sp ps steps)) = true.
 Proof.
-  unfold monitor, model_obs, model_obs_gen. apply mon_sound.
-  - induction steps as [|[| | |o] steps IH]; cbn; auto. split; [now left|assumption].
+  unfold monitor, model_obs_scoped, model_obs_gen. apply mon_sound.
+  - induction steps as [|[| | |o] steps IH]; cbn; auto. split; [split; [now left|reflexivity]|assumption].
+  - reflexivity.
+  - repeat split. discriminate.
+  - reflexivity.
+  - now split.
+Qed.
+
+(** the Package carries the label and every other (Cluster)Package that exists carries it in the same scope *)
+Definition plain (ps : peers) : bool := self_labelled ps && (n_elsewhere ps =? 0) && (n_unrelated ps =? 0).
+
+(** no pass of the history has a uniqueInScope constraint *)
+Fixpoint no_unique (steps : list step) : bool :=
+  match steps with
+  | [] => true
+  | SPass o :: r => negb (is_some (o_unique o)) && no_unique r
+  | _ :: r => no_unique r
+  end.
+
+(** The code as it is (every (Cluster)Package is listed) satisfies the monitor on every history
+    without uniqueInScope constraint, and on every history among plain peers. *)
+Theorem monitor_sound_partial sc t sp ps steps :
+  plain ps = true \/ no_unique steps = true ->
+  verdict_all (monitor (sc, t, sp, ps, steps, model_obs t sp ps steps)) = true.
+Proof.
+  intros Hpl. unfold monitor, model_obs, model_obs_gen. apply mon_sound.
+  - induction steps as [|[| | |o] steps IH]; cbn in *; auto.
+    + split; [split; [now left|]|].
+      * destruct Hpl as [Hpl|Hnu].
+        -- unfold plain in Hpl. rewrite !andb_true_iff, !N.eqb_eq in Hpl. destruct Hpl as [[H1 H2] H3].
+           unfold seen, listed. rewrite H1, H2, H3. destruct (o_unique o); [|reflexivity]. replace (1 + n_same ps + 0 + 0) with (1 + n_same ps) by lia. reflexivity.
+        -- apply andb_true_iff in Hnu. destruct Hnu as [Hn _]. unfold seen. destruct (o_unique o); [discriminate|reflexivity].
+      * apply IH. destruct Hpl as [Hpl|Hnu]; [now left|right]. apply andb_true_iff in Hnu. tauto.
+  - reflexivity.
   - repeat split. discriminate.
   - reflexivity.
   - now split.
@@ -380,8 +467,23 @@ Qed.
 
 (** The witness of the defect fixed by cb58cda: the monitor rejects what the old Deploy did. *)
 Definition wit_case_v0 : case :=
-  ([(1, 0, 0, 7)], wit_spec, [SPass wit_oracle], model_obs_v0 [(1, 0, 0, 7)] wit_spec [SPass wit_oracle]).
+  (false, [(1, 0, 0, 7)], wit_spec, no_peers, [SPass wit_oracle],
+   model_obs_v0 [(1, 0, 0, 7)] wit_spec no_peers [SPass wit_oracle]).
 
 Lemma wit_case_v0_judged :
   agree wit_case_v0 = false /\ m_cons (monitor wit_case_v0) = false /\ m_hist (monitor wit_case_v0) = false.
+Proof. vm_compute. repeat split. Qed.
+
+(** The witnesses of the unscoped List (F-C16b): the monitor rejects what the code as it is does
+    with a unique package next to a stranger (not rolled out), and with an unlabelled one (rolled out). *)
+Definition wit_case_stranger : case :=
+  (false, [(1, 0, 0, 7)], wit_spec, one_stranger, [SPass uniq_oracle],
+   model_obs [(1, 0, 0, 7)] wit_spec one_stranger [SPass uniq_oracle]).
+Definition wit_case_unlabelled : case :=
+  (false, [(1, 0, 0, 7)], wit_spec, unlabelled, [SPass uniq_oracle],
+   model_obs [(1, 0, 0, 7)] wit_spec unlabelled [SPass uniq_oracle]).
+
+Lemma wit_case_unscoped_judged :
+  agree wit_case_stranger = true /\ m_tmpl (monitor wit_case_stranger) = false /\
+  agree wit_case_unlabelled = true /\ m_valid (monitor wit_case_unlabelled) = false.
 Proof. vm_compute. repeat split. Qed.
